@@ -414,24 +414,32 @@ class SVGLexicalParser:
             elif cmd == "h":
                 while True:
                     value = self._number()
+                    if value is None or self.parser.current_point is None:
+                        raise ValueError
                     self.parser.horizontal(value, relative=True)
                     if not self._more():
                         break
             elif cmd == "H":
                 while True:
                     value = self._number()
+                    if value is None or self.parser.current_point is None:
+                        raise ValueError
                     self.parser.horizontal(value, relative=False)
                     if not self._more():
                         break
             elif cmd == "v":
                 while True:
                     value = self._number()
+                    if value is None or self.parser.current_point is None:
+                        raise ValueError
                     self.parser.vertical(value, relative=True)
                     if not self._more():
                         break
             elif cmd == "V":
                 while self._more():
                     value = self._number()
+                    if value is None or self.parser.current_point is None:
+                        raise ValueError
                     self.parser.vertical(value, relative=False)
             elif cmd == "c":
                 while True:
